@@ -72,6 +72,21 @@ def realise(cin, variant):
     if not res.index.equals(idx) or not np.array_equal(res["temperature"].to_numpy(dtype=float), T):
         out["res"] = "RowsDiffer"
         return out
+    # C01 on constructed documents (all seven shapes, both profiles): stored again and read back, the model predicts the same bytes
+    # and re-serialises to the same document
+    import json as _json
+    rt = {"ok": False, "predSame": False, "docSame": False}
+    try:
+        text = model.to_json()
+        m2 = type(model).from_json(text)
+        res2 = m2.predict(data, ignore_disqualification=True)
+        rt["ok"] = True
+        rt["predSame"] = bool(res2.index.equals(res.index) and all(
+            np.array_equal(res2[c].to_numpy(dtype=float), res[c].to_numpy(dtype=float), equal_nan=True) for c in ("predicted", "predicted_unc", "heating_load", "cooling_load")))
+        rt["docSame"] = bool(_json.loads(m2.to_json()) == _json.loads(text))
+    except Exception as ex:
+        rt["err"] = "%s: %s" % (type(ex).__name__, str(ex)[:160])
+    out["rt"] = rt
     c = f("c")
     E = res["predicted"].to_numpy(dtype=float)
     H = res["heating_load"].to_numpy(dtype=float)
@@ -104,3 +119,5 @@ def corruptions(cin, out):
     o = copy.deepcopy(out); o["rows"][-1]["fl"] -= 9000; o["rows"][-1]["ce"] -= 9000; o["rows"][-1]["eok"] = False; yield "valueDown", o
     o = copy.deepcopy(out); o["rows"][len(o["rows"]) // 2]["loadsOk"] = False; yield "loads", o
     o = copy.deepcopy(out); o["rows"] = o["rows"][:-1]; yield "dropRow", o
+    o = copy.deepcopy(out); o["rt"]["predSame"] = False; yield "roundTripPred", o
+    o = copy.deepcopy(out); o["rt"]["docSame"] = False; yield "roundTripDoc", o
